@@ -26,7 +26,7 @@ BATCH = 200
 NPAR = max(2, min(12, vlib.NCPU - 2))
 RUN_TIMEOUT = 40          # expression files
 STMT_TIMEOUT = 12         # statement files (a wrong compiler easily produces endless loops)
-MAX_ISOLATE = 60          # run-time failures isolated per job before the rest of the failing batches is only counted
+MAX_ISOLATE = 30          # run-time failures isolated per job before the rest of the failing batches is only counted
 
 ENGINES = {
     # (name, options before the source file, execution option: everything after -e? is passed to the compiled program)
@@ -47,6 +47,7 @@ JOBS = {
         ("e_bf", "CExpr", "CExpr_bf.cfg", 1, None, None, {}),        # bit-field operands and lvalues
         ("e_sim", "CExpr", "CExpr_sim.cfg", 2, 3000, 40, {}),        # depth <= 3, full grid, constant-expression capable
         ("e_simrt", "CExpr", "CExpr_simrt.cfg", 2, 3000, 40, {}),    # depth <= 3 with assignments, ++/--, bit-fields
+        ("i_2", "CInit", "CInit_mc.cfg", 1, None, None, {}),         # initialiser lists of <= 2 items for struct S
         ("s_d2", "CStmt", "CStmt_mc.cfg", 2, None, None, {}),        # statement trees depth <= 2, <= 5 nodes
         ("s_sim", "CStmt", "CStmt_sim.cfg", 2, 4000, 60, {}),        # statement trees depth <= 3, <= 14 nodes
     ],
@@ -61,6 +62,7 @@ JOBS = {
         ("e_bf", "CExpr", "CExpr_bf_t.cfg", 6, None, None, {}),
         ("e_sim", "CExpr", "CExpr_sim.cfg", 8, 60000, 40, {}),
         ("e_simrt", "CExpr", "CExpr_simrt.cfg", 8, 60000, 40, {}),
+        ("i_3", "CInit", "CInit_t.cfg", 2, None, None, {}),
         ("s_d2", "CStmt", "CStmt_mc.cfg", 2, None, None, {}),
         ("s_d3", "CStmt", "CStmt_t.cfg", 8, None, None, {}),
         ("s_sim", "CStmt", "CStmt_sim.cfg", 8, 40000, 60, {}),
@@ -225,13 +227,42 @@ static int ev(int k) { printf(" %d", k); return k; }
 """
 
 
+INIT_PRELUDE = """struct In { signed char c; long d; };
+struct S { int a; short b[3]; struct In in; unsigned e : 5; signed int g : 3; char s[4]; int f; };
+static void dump(int id, const char *tag, struct S *p) {
+  printf("%d %s %d %d %d %d %d %ld %d %d %d %d %d %d %d\\n", id, tag, p->a, p->b[0], p->b[1], p->b[2], p->in.c, p->in.d, (int)p->e, (int)p->g,
+         p->s[0], p->s[1], p->s[2], p->s[3], p->f);
+}
+static struct S pass(struct S x) { return x; }
+"""
+INIT_FIELDS = ["a", "b0", "b1", "b2", "in.c", "in.d", "e", "g", "s0", "s1", "s2", "s3", "f"]
+
+
+def init_expected(c):
+    v = [str(x) for x in c["vals"]]
+    return {k: list(v) for k in ("G", "L", "T", "U", "K")}
+
+
+def render_init(c, i):
+    x = c["init"]
+    return ["static struct S g%d = %s;" % (i, x),
+            "static void c%d(void) {" % i,
+            "  struct S l = %s; struct S t; struct S u;" % x,
+            "  t = l; u = pass(g%d);" % i,
+            "  dump(%d, \"G\", &g%d); dump(%d, \"L\", &l); dump(%d, \"T\", &t); dump(%d, \"U\", &u);" % (i, i, i, i, i),
+            "  dump(%d, \"K\", &(struct S)%s);" % (i, x),
+            "}"]
+
+
 def render_file(cases, ids):
     fam = cases[0]["fam"]
     L = [PRELUDE]
     if fam == "stmt":
         L.append(STMT_PRELUDE)
+    if fam == "init":
+        L.append(INIT_PRELUDE)
     for c, i in zip(cases, ids):
-        L += render_stmt(c, i) if fam == "stmt" else render_expr(c, i)
+        L += render_stmt(c, i) if fam == "stmt" else render_init(c, i) if fam == "init" else render_expr(c, i)
     L.append("int main(void) {")
     for c, i in zip(cases, ids):
         if fam == "stmt":
@@ -245,7 +276,7 @@ def render_file(cases, ids):
 
 
 def expected(c):
-    return stmt_expected(c) if c["fam"] == "stmt" else expr_expected(c)
+    return stmt_expected(c) if c["fam"] == "stmt" else init_expected(c) if c["fam"] == "init" else expr_expected(c)
 
 
 # ----------------------------------------------------------------------------------------------- running
@@ -322,7 +353,7 @@ class Stats:
         self.feat = collections.Counter()
 
 
-FIELDS = {"C": ["type", "size", "value", "enum", "arr", "case"], "R": ["type", "size", "value"], "L": ["type", "size", "value"],
+FIELDS = {"G": [], "T": [], "U": [], "K": [], "C": ["type", "size", "value", "enum", "arr", "case"], "R": ["type", "size", "value"], "L": ["type", "size", "value"],
           "S": []}
 
 
@@ -334,6 +365,8 @@ def diff_fields(ctx, exp, got):
     out = []
     if ctx == "S":
         return [] if exp == got else ["events"]
+    if ctx in "GLTUK" and len(exp) == 13:
+        names = INIT_FIELDS
     for k in range(max(len(exp), len(got))):
         a = exp[k] if k < len(exp) else None
         b = got[k] if k < len(got) else None
@@ -469,7 +502,11 @@ K_DIVMIN = "cexpr:compiler_crash:min_div_minus1_in_unevaluated_operand"
 K_ANDSWAP = "cexpr:crash:gen_O2_zero_extension_of_and_with_constant_first"
 K_BFALIAS = "cexpr:bitfield:bool_member_initialiser_alias"
 K_LOSTCOPY = "cstmt:gen_O2:postincrement_loop_test_lost_copy"
-CTXNAME = {"C": "const_fold", "R": "runtime", "L": "local", "S": "stmt", "*": "program"}
+K_INIT_OVR = "cinit:static:later_initialiser_of_same_scalar_ignored"
+K_INIT_PAS = "cinit:positional_initialiser_after_string_literal_member"
+K_INIT_SAB = "cinit:auto:string_literal_member_after_bitfield_or_later_member"
+CTXNAME = {"C": "const_fold", "R": "runtime", "L": "local", "S": "stmt", "*": "program", "G": "static", "T": "assigned_copy",
+           "U": "passed_and_returned", "K": "compound_literal"}
 NARROW = {"B", "c", "sc", "uc", "s", "us"}
 O2GROUP = {"eg-O2", "eg-O3", "el", "eb"}
 
@@ -491,6 +528,17 @@ def classify(fails):
     for r in rows:
         c, eng, ctx, fields, ef, got, st = r
         only_o2 = engs[id(c)] <= O2GROUP
+        if c["fam"] == "init":
+            fl = c.get("fl", [])
+            if "pas" in fl:
+                keyed.append((K_INIT_PAS, r))
+            elif "sab" in fl and ctx in "LTK":
+                keyed.append((K_INIT_SAB, r))
+            elif "ovr" in fl and ctx in "GU":
+                keyed.append((K_INIT_OVR, r))
+            else:
+                keyed.append(("cinit:%s:%s" % ({"L": "auto"}.get(ctx, CTXNAME[ctx]), "+".join(fields)), r))
+            continue
         if c["fam"] == "stmt":
             # the -O2 generator drops the copy needed by `cK++ < n` as a loop test (value before the increment is compared)
             if only_o2 and "postinc_loop" in c["ft"] and fields == ["events"]:
@@ -577,12 +625,14 @@ def gen_cases(jobs, stats, maxpar=None):
         tot_states += r.states
         tot_distinct += r.distinct
         stats.cnt["tlc_wall_s"] += int(r.wall)
-        fam = "stmt" if kw["module"] == "CStmt" else "expr"
+        fam = {"CStmt": "stmt", "CInit": "init"}.get(kw["module"], "expr")
         for o in r.outs:
             if "u" in o:
                 stats.cnt["dropped_%s_%s" % (fam, o["u"] if isinstance(o["u"], str) else "undefined")] += 1
                 continue
-            k = (o["c"], o["r"], json.dumps(o["lv"], sort_keys=True)) if fam == "expr" else o["body"]
+            k = (o["c"], o["r"], json.dumps(o["lv"], sort_keys=True)) if fam == "expr" else o["body"] if fam == "stmt" else o["init"]
+            if fam == "init":
+                o["d"] = o["n"]
             if k in seen:
                 stats.cnt["duplicates_" + fam] += 1
                 continue
@@ -595,6 +645,8 @@ def gen_cases(jobs, stats, maxpar=None):
 def describe(c):
     if c["fam"] == "stmt":
         return c["body"][:500]
+    if c["fam"] == "init":
+        return "struct S x = " + c["init"]
     s = "`%s`" % (c["c"] or c["r"])
     if c["lv"]:
         s += " with " + " ".join(decl_text(d, False) for d in c["lv"])
@@ -632,13 +684,14 @@ def run(tier, jobs=None, mutate=None, extra_engines=(), engines=None):
                     stats.feat[s.split(":")[0]] += 1
                 stats.cnt["expr_const_context"] += 1 if c["ice"] else 0
                 stats.cnt["expr_unevaluated_ub_operand"] += 1 if c["uu"] else 0
-            else:
+            elif fam == "stmt":
                 for s in c["ft"]:
                     stats.feat["stmt_" + s] += 1
         ck.sample({"job": name, "case": describe(cases[len(cases) // 2])}, maxn=10)
         vlib.log("  %-6s %7d cases in %d files x (gcc + %d engines), %.0fs" % (name, len(cases), nb, len(engines) + len(extra_engines), time.time() - t1))
     keyed = classify(stats.fail)
     known = collections.Counter()
+    allkeys = collections.Counter(k for k, _ in keyed)
     for key, (c, eng, ctx, fields, ef, got, stt) in keyed:
         txt = "%s [%s, %s]: spec and gcc %s, c2m %s%s; %s" % (
             c["fam"], eng, CTXNAME[ctx], " ".join(ef) if ef else "accept and run", " ".join(got) if got else "<nothing>",
@@ -655,13 +708,19 @@ def run(tier, jobs=None, mutate=None, extra_engines=(), engines=None):
     for k, v in sorted(bydepth.items()):
         ck.setc(k, v)
     ck.setc("known_finding_cases", dict(known))
+    ck.setc("mismatch_rows_by_key", dict(allkeys.most_common(40)))      # one row per (case, engine, context)
     ck.setc("features_exercised", dict(stats.feat))
     ck.setc("states", di)
     ck.setc("transitions", st)
     ck.setc("traces_validated_against_impl", total)
     ck.setc("engines", ["gcc -std=c11 -O0 (reference)"] + ["c2m " + " ".join(e[1] + [e[2]]) for e in engines])
     ck.setc("tlc_elapsed_s", round(t_tlc, 1))
-    ck.setc("exhaustive", "BFS jobs enumerate every tree within the bounds of their .cfg; *_sim jobs are TLC -simulate walks seeded by VERIF_SEED")
+    ck.setc("exhaustive", False)
+    ck.setc("explanation", "jobs without 'sim' in their name are TLC breadth-first runs that enumerate EVERY tree within the bounds of "
+                           "their .cfg (operator sets, leaf types, grid, depth, leaves); the *sim* jobs are TLC -simulate walks seeded by "
+                           "VERIF_SEED, so the run as a whole is not exhaustive")
+    ck.setc("evaluations", total * (1 + len(engines)))
+    ck.setc("distinct_nontrivial", total)
     ck.setc("rule", "each TLC-generated case carries the result type/value (CExpr.tla) or ev() sequence and return value (CStmt.tla); the "
                     "rendered program is run under gcc and under c2m per engine; VIOLATION iff spec == gcc and c2m differs in a printed "
                     "field, rejects or crashes, confirmed on the case alone; undefined trees are dropped by the spec")
@@ -714,16 +773,19 @@ def selftest():
     st0 = Stats()
     gen, _, _ = gen_cases(SELFTEST_JOBS, st0)
     for name, cases in gen.items():
-        good = cases[len(cases) // 3]
-        c = copy.deepcopy(cases[len(cases) // 2])
+        # cases that no finding of the unchanged tree touches: results of rank >= int, no conversion to _Bool, no post-increment loop
+        clean = [c for c in cases if (c["fam"] == "stmt" and "postinc_loop" not in c["ft"] and c["ev"])
+                 or (c["fam"] == "expr" and c["ty"] in ("i", "u", "l", "ul") and not c["bn"] and c["d"] == 1)]
+        good = clean[len(clean) // 3]
+        c = copy.deepcopy(clean[len(clean) // 2])
         if c["fam"] == "expr":
             c["v"] = "%016x" % (int(c["v"], 16) ^ 1)
         else:
-            c["ev"] = c["ev"][:-1] if c["ev"] else [99]
+            c["ev"] = c["ev"][:-1]
         st = Stats()
         judge(c2m, ENGINES["quick"], [good, c], "selftest", st)
-        objected = len(st.spec_dis) == 1 and not st.fail and st.cnt["pass"] == 1
-        print("selftest %s: corrupted expectation %s" % (name, "objected to (SPEC-DISAGREES)" if objected else "NOT objected to"))
+        objected = len(st.spec_dis) == 1 and st.spec_dis[0][0] is not good and not st.fail and st.cnt["pass"] == 1
+        print("selftest %s: corrupted expectation %s" % (name, "objected to (SPEC-DISAGREES), neighbour passes" if objected else "NOT objected to"))
         bad += 0 if objected else 1
 
     def fake_cc(flags, sedexpr=None):
@@ -741,7 +803,7 @@ def selftest():
             return ("ok" if rc == want_rc and done else "rc(%d)" % rc, got, e[-300:])
         return f
 
-    ecases = [c for c in gen["e_un"] if c["sg"][-1] in ("(i):c", "-:c", "~:c") and int(c["v"], 16) >> 63][:6]
+    ecases = [c for c in gen["e_un"] if c["sg"][-1] in ("(i):c", "+:c", "(l):c") and c["lv"] and int(c["lv"][0]["f0"], 16) >> 63][:6]
     st = Stats()
     judge(c2m, [], ecases, "selftest_uc", st, extra_engines=[("fake-unsigned-char", fake_cc(["-funsigned-char"]))])
     hit = len({id(r[0]) for r in st.fail})
